@@ -53,6 +53,11 @@ theorem from_to_dict_datainfo (di : DataInfo) :
     DataInfo.fromDict di.toDict = some { di with path := none } :=
   DataInfo.from_to di
 
+/-- `initial_individual_estimates` (a DataFrame of any shape with one cell per label and column):
+    `DataFrame.from_dict(df.to_dict())` gives the frame back, every cell unchanged. -/
+theorem from_to_dict_individual_estimates (ie : IE) (hwf : ie.WF) : IE.fromDict ie.toDict = some ie :=
+  IE.from_to ie hwf
+
 /-- `Model`: the content comes back; name, description and dataset path are reset. -/
 theorem from_to_dict (h : c.Lawful) (m : Model E M) (hg : m.Good) :
     Model.fromDict c (m.toDict c) = some m.blank :=
@@ -109,6 +114,34 @@ theorem encode_injective (h : c.Lawful) (rd : R → Nat) (dumps : Json → Strin
   rw [hd, e2] at e1
   simp only [Model.blank_blank, Option.some.injEq] at e1
   exact ⟨by simp [hrows, h2, h4, h5], e1.symm⟩
+
+/-- The numeric leaf encoder as an explicit hypothesis.  `json.dumps` is a structural printer
+    `dumpsS` after `mapFlt num`, `num` the text written for a float.  If `num` is injective on
+    floats (as `float.__repr__` is: it round-trips; checked leaf by leaf on every generated model)
+    and the structural printer is injective, the pre-image determines dataset and content. -/
+theorem encode_injective_leaf (h : c.Lawful) (rd : R → Nat) (num : Flt → String) (dumpsS : Json → String)
+    (hrd : ∀ a b, rd a = rd b → a = b) (hnum : ∀ a b, num a = num b → a = b)
+    (hS : ∀ a b, dumpsS a = dumpsS b → a = b)
+    (ds ds' : Dataset R) (m m' : Model E M) (hg : m.Good) (hg' : m'.Good)
+    (heq : encode c rd (fun j => dumpsS (j.mapFlt num)) ds m = encode c rd (fun j => dumpsS (j.mapFlt num)) ds' m') :
+    ds = ds' ∧ m.blank = m'.blank :=
+  encode_injective h rd _ hrd (fun a b hab => Json.mapFlt_inj num hnum a b (hS _ _ hab)) ds ds' m m' hg hg' heq
+
+/-- The hypothesis is necessary: with a leaf encoder that maps two different floats to the same
+    text (rounding to a fixed number of decimals, say) two models with different content — here:
+    one individual estimate — have the same pre-image, for every dataset. -/
+theorem encode_lossy_leaf_collision (rd : R → Nat) (num : Flt → String) (dumpsS : Json → String)
+    (a b : Flt) (hab : a ≠ b) (hnum : num a = num b) (ds : Dataset R) (m : Model E M) :
+    let ma := { m with initialIndividualEstimates := some { index := ["1"], cols := [("ETA_1", [.flt a])] } }
+    let mb := { m with initialIndividualEstimates := some { index := ["1"], cols := [("ETA_1", [.flt b])] } }
+    ma.blank ≠ mb.blank ∧
+    encode c rd (fun j => dumpsS (j.mapFlt num)) ds ma = encode c rd (fun j => dumpsS (j.mapFlt num)) ds mb := by
+  constructor
+  · intro h
+    have := congrArg (fun x => x.initialIndividualEstimates.map (fun ie => ie.cols.map (fun c => c.2.map Json.floats))) h
+    simp [Model.blank, Json.floats] at this
+    exact hab this
+  · simp [encode, Model.blank, Model.toDict, ieOptToDict, IE.toDict, Json.mapFlt, Json.mapFltObj, Json.mapFltList, hnum]
 
 /-- conversely, equal data and equal content give equal pre-images (so the key is a function of
     content and data only) -/
